@@ -114,11 +114,17 @@ def subject(case):
         multivariate = spec["kind"] in ("hampel", "imputer", "cos", "log", "scaler") and case["as_frame"]
         if multivariate:
             z = pd.DataFrame({"a": z, "b": z * 2.0 + 1.0})
-        data = {"Z": z}
-        calls = {"transform": lambda e: e.transform(data["Z"])}
+        # a later stretch of time, starting at an arbitrary offset (any seasonal phase)
+        off = case["marks"][0] % 9
+        z2 = gen.build_series([11.0 + 0.75 * j + ((j * 5) % 7) / 3.0 for j in range(8)], int(z.index[-1]) + 1 + off, case["index_kind"])
+        if multivariate:
+            z2 = pd.DataFrame({"a": z2, "b": z2 * 2.0 + 1.0})
+        data = {"Z": z, "Z2": z2}
+        calls = {"transform": lambda e: e.transform(data["Z"]), "transform_later": lambda e: e.transform(data["Z2"])}
         t0 = panelpool.build_series_transformer(spec)
         if hasattr(t0, "inverse_transform"):
             calls["inverse_transform"] = lambda e: e.inverse_transform(data["Z"])
+            calls["inverse_transform_later"] = lambda e: e.inverse_transform(data["Z2"])
         return {"make": lambda: panelpool.build_series_transformer(spec), "fit": lambda e: e.fit(data["Z"]),
                 "calls": calls, "data": data, "desc": spec["kind"], "randomised": spec.get("method") == "random"}
     if fam == "panel_transformer":
